@@ -87,10 +87,14 @@ def decode_update(msg: bytes, addpath=lambda afi, safi: False):
             nh = val[4 : 4 + nhl]
             assert val[4 + nhl] == 0, 'reserved'
             lab = safi in (4, 128)
-            res['mp_reach'].append((afi, safi, bytes(nh), prefixes(val[5 + nhl :], addpath(afi, safi), lab, safi == 128)))
+            rest = val[5 + nhl :]
+            # other NLRI formats (flow, vpls, evpn, ...) are not <length, prefix> lists: kept as one raw entry
+            entries = prefixes(rest, addpath(afi, safi), lab, safi == 128) if safi in (1, 2, 4, 128) else [(None, (), None, None, bytes(rest))]
+            res['mp_reach'].append((afi, safi, bytes(nh), entries))
         elif typ == 15:
             afi = int.from_bytes(val[0:2], 'big')
             safi = val[2]
             lab = safi in (4, 128)
-            res['mp_unreach'].append((afi, safi, prefixes(val[3:], addpath(afi, safi), lab, safi == 128)))
+            entries = prefixes(val[3:], addpath(afi, safi), lab, safi == 128) if safi in (1, 2, 4, 128) else [(None, (), None, None, bytes(val[3:]))]
+            res['mp_unreach'].append((afi, safi, entries))
     return res
